@@ -153,6 +153,30 @@ class Quot:
         self.num, self.den = num, den
 
 
+class VFile:
+    """A virtual text file (the analysed code never touches the real file system)."""
+
+    def __init__(self, path, lines):
+        self.path, self.lines = path, list(lines)
+
+    def call(self, it, name, args, n):
+        if name == "write":
+            if not isinstance(args[0], str):
+                raise PathRaise("TypeError(write() argument must be str)", it.where(n))
+            self.lines.append(args[0])
+            return None
+        if name == "readlines":
+            return self.text_lines()
+        if name == "read":
+            return "".join(self.lines)
+        if name in ("close", "flush", "__enter__", "__exit__"):
+            return None
+        raise it.unsupported("file method %s" % name, n)
+
+    def text_lines(self):
+        return "".join(self.lines).splitlines(True)
+
+
 class DDict(dict):
     """collections.defaultdict"""
     default_factory = None
@@ -236,6 +260,9 @@ class Interp:
         self.mark_wraps = False
         self.atan2_uses = 0
         self.wraps = []          # (marker name, inner + offset) per unwrap, in mark mode
+        self.vfs = None          # virtual file system: path -> VFile
+        self.ph_of = {}          # poly key -> placeholder token
+        self.ph_val = {}         # placeholder token -> Poly
 
     # ------------------------------------------------------------------------------------ helpers
     def where(self, node):
@@ -278,6 +305,28 @@ class Interp:
         self.facts[key] = (remaining & ts) if ans else (remaining - ts)
         self.conds.append("%s is %s" % (desc, ans))
         return ans
+
+    def known_zero(self, d):
+        """Is polynomial d known to vanish on this path (identically, or by an equality decision taken earlier)?"""
+        if d.is_zero():
+            return True
+        if d.const_value() is not None:
+            return False
+        key, _ = SignFacts.canon(d)
+        if self.facts.get(key) == {0}:
+            return True
+        # substitute variables known to be zero
+        zero = {}
+        for k, signs in self.facts.items():
+            if signs == {0}:
+                terms = dict(k)
+                if len(terms) == 1:
+                    (m, c), = terms.items()
+                    if len(m) == 1 and m[0][1] == 1:
+                        zero[poly.R.vars[m[0][0]]] = 0
+        if zero:
+            return d.subs(zero).is_zero()
+        return False
 
     # ------------------------------------------------------------------------------------ calls
     def call_function(self, fn, args, kw=None, self_val=None, cls_for_super=None):
@@ -426,12 +475,26 @@ class Interp:
                 raise PathRaise("AssertionError", self.where(st))
         elif isinstance(st, ast.Pass):
             pass
+        elif isinstance(st, ast.With):
+            for item in st.items:
+                v = self.ev(item.context_expr, env)
+                if item.optional_vars is not None:
+                    self.assign(item.optional_vars, v, env)
+            self.block(st.body, env)
+        elif isinstance(st, ast.FunctionDef):
+            st._gs_module = self.module_of_current()
+            st._gs_class = None
+            env[st.name] = Opaque("closure", st, env)
         else:
             raise self.unsupported("statement %s" % type(st).__name__, st)
 
     def iterate(self, v, node):
         if isinstance(v, (list, tuple)):
             return list(v)
+        if isinstance(v, VFile):
+            return v.text_lines()
+        if isinstance(v, (frozenset, set)):
+            return [self.unhash(x) for x in v]
         if isinstance(v, Arr):
             if v.ndim == 2:
                 return [Arr(list(r), 1) for r in v.data]
@@ -617,6 +680,8 @@ class Interp:
             return Opaque("pkgfunc", nm)
         if nm in BUILTIN_NAMES:
             return Opaque("builtin", nm)
+        if nm == "__name__":
+            return "graphslam"
         if nm == "float":
             return FLOAT
         raise self.unsupported("unknown name %s" % nm, n)
@@ -910,6 +975,13 @@ class Interp:
         return self.index(v, idx, n)
 
     def index(self, v, idx, node):
+        if isinstance(v, str):
+            if isinstance(idx, (slice, int)):
+                try:
+                    return v[idx]
+                except IndexError:
+                    raise PathRaise("IndexError", self.where(node))
+            raise self.unsupported("index into string", node)
         if isinstance(v, (list, tuple)):
             if isinstance(idx, slice):
                 return v[idx]
@@ -976,6 +1048,10 @@ class Interp:
                 return Opaque("npfunc", v.payload[0] + "." + a)
             if v.kind == "finfo" and a == "eps":
                 return poly.opaque("eps")
+            if v.kind == "import":
+                return Opaque("import", v.payload[0] + "." + a)
+            if v.kind == "logger":
+                return Opaque("logmeth", a)
             raise self.unsupported("attribute %s of %r" % (a, v), n)
         if isinstance(v, Pose):
             k = self.pkg.lookup(v.cls, a)
@@ -1029,6 +1105,8 @@ class Interp:
         if isinstance(v, Poly):
             if a in ("real",):
                 return v
+        if isinstance(v, VFile):
+            return Opaque("vfile", v, a)
         if isinstance(v, (list, dict, str, tuple)):
             return Opaque("pymeth", v, a)
         if v is None:
@@ -1064,6 +1142,8 @@ class Interp:
             if f.name in self.pkg.classes:
                 return self.construct(f.name, args, kw)
             if f is FLOAT or f.name == "float":
+                if isinstance(args[0], str):
+                    return self.parse_number(args[0], n, integer=False)
                 return self.scalar(args[0], n)
             raise self.unsupported("call of class %s" % f.name, n)
         if not isinstance(f, Opaque):
@@ -1084,6 +1164,28 @@ class Interp:
             return self.builtin(f.payload[0], args, kw, n, env)
         if k == "npfunc":
             return self.npfunc(f.payload[0], args, kw, n)
+        if k == "closure":
+            fn, cenv = f.payload
+            a = fn.args
+            params = [p.arg for p in a.args]
+            call_env = dict(cenv)
+            for p_, v_ in zip(params, args):
+                call_env[p_] = v_
+            for p_, v_ in kw.items():
+                call_env[p_] = v_
+            ndef = len(a.defaults)
+            for i_, p_ in enumerate(params):
+                if i_ >= len(args) and p_ not in kw:
+                    j_ = i_ - (len(params) - ndef)
+                    if j_ < 0:
+                        raise self.unsupported("missing argument %s" % p_, n)
+                    call_env[p_] = self.ev(a.defaults[j_], cenv)
+            return self.run(fn, call_env)
+        if k == "vfile":
+            return f.payload[0].call(self, f.payload[1], args, n)
+        if k == "logmeth":
+            self.events.append(("log", f.payload[0], args))
+            return None
         if k == "import":
             return self.imported_call(f.payload[0], args, kw, n)
         if k == "callable":
@@ -1092,6 +1194,10 @@ class Interp:
 
     def imported_call(self, origin, args, kw, n):
         leaf = origin.rsplit(".", 1)[-1]
+        if origin.startswith("logging") and leaf == "getLogger":
+            return Opaque("logger")
+        if origin.startswith("warnings"):
+            return None
         if leaf == "defaultdict":
             d = DDict()
             fac = args[0] if args else None
@@ -1214,7 +1320,93 @@ class Interp:
                 return [self.unhash(k) for k in v.keys()]
             if name == "get":
                 return v.get(self.hashable(args[0], n), args[1] if len(args) > 1 else None)
+        if isinstance(v, str):
+            if name == "format":
+                return self.str_format(v, args, kw, n)
+            if name == "join":
+                items = self.iterate(args[0], n)
+                if not all(isinstance(x, str) for x in items):
+                    raise PathRaise("TypeError(join of non-strings)", self.where(n))
+                return v.join(items)
+            if name in ("startswith", "endswith", "split", "rsplit", "strip", "rstrip", "lstrip", "lower", "upper", "replace",
+                        "splitlines", "partition", "find", "count", "isspace", "index"):
+                if all(isinstance(a, (str, type(None))) or (isinstance(a, Poly) and a.const_value() is not None) for a in args):
+                    pa = [int(a.const_value()) if isinstance(a, Poly) else a for a in args]
+                    try:
+                        r = getattr(v, name)(*pa)
+                    except ValueError:
+                        raise PathRaise("ValueError(str.%s)" % name, self.where(n))
+                    if isinstance(r, bool):
+                        return r
+                    if isinstance(r, int):
+                        return Poly.const(r)
+                    if isinstance(r, tuple):
+                        return tuple(r)
+                    return r
         raise self.unsupported("method %s of %s" % (name, type(v).__name__), n)
+
+    # ------------------------------------------------------------------------------------ strings (the .g2o text layer)
+    def placeholder(self, p):
+        """A whitespace-free token that stands for the (lossless) decimal rendering of the number p."""
+        key = p.key()
+        if key not in self.ph_of:
+            tok = "\x01%d\x02" % len(self.ph_of)
+            self.ph_of[key] = tok
+            self.ph_val[tok] = p
+        return self.ph_of[key]
+
+    def render(self, v, n):
+        if isinstance(v, str):
+            return v
+        if isinstance(v, bool) or v is None:
+            return str(v)
+        if isinstance(v, Wrapped):
+            v = self.unwrap(v, n)
+        if isinstance(v, Poly):
+            return self.placeholder(v)
+        raise self.unsupported("str() of %r" % (v,), n)
+
+    def str_format(self, fmt, args, kw, n):
+        import string
+        out = []
+        auto = 0
+        for lit, field, spec, conv in string.Formatter().parse(fmt):
+            out.append(lit)
+            if field is None:
+                continue
+            if field == "":
+                if auto >= len(args):
+                    raise PathRaise("IndexError(format)", self.where(n))
+                val = args[auto]
+                auto += 1
+            elif field.isdigit():
+                if int(field) >= len(args):
+                    raise PathRaise("IndexError(format)", self.where(n))
+                val = args[int(field)]
+            elif field in kw:
+                val = kw[field]
+            else:
+                raise self.unsupported("format field %r" % field, n)
+            if isinstance(val, (Poly, Wrapped)):
+                ok_spec = spec in ("", "r", "s") or spec in (".17g", ".17e", ".16e", "r")
+                if not ok_spec or conv not in (None, "r", "s"):
+                    raise LossyOperation("number formatted with format spec %r (not the shortest round-trip repr)" % (":" + spec if spec else "!" + str(conv)), self.where(n))
+            out.append(self.render(val, n))
+        return "".join(out)
+
+    def parse_number(self, tok, n, integer):
+        if tok in self.ph_val:
+            return self.ph_val[tok]
+        t = tok.strip()
+        if t in self.ph_val:
+            return self.ph_val[t]
+        if "\x01" in tok:
+            raise PathRaise("ValueError(could not convert %r)" % tok, self.where(n))
+        try:
+            v = int(t) if integer else float(t)
+        except ValueError:
+            raise PathRaise("ValueError(could not convert string %r to %s)" % (tok[:20], "int" if integer else "float"), self.where(n))
+        return Poly.const(v)
 
     def unhash(self, k):
         if isinstance(k, tuple) and len(k) == 2 and k[0] == "num":
@@ -1298,7 +1490,21 @@ class Interp:
             seq = self.iterate(args[0], n) if args else []
             return list(seq) if name == "list" else tuple(seq)
         if name == "float":
+            if isinstance(args[0], str):
+                return self.parse_number(args[0], n, integer=False)
             return self.scalar(args[0], n)
+        if name == "open":
+            path = args[0]
+            mode = args[1] if len(args) > 1 else kw.get("mode", "r")
+            if not isinstance(path, str) or self.vfs is None:
+                raise self.unsupported("open() of a non-virtual file", n)
+            if "w" in mode:
+                self.vfs[path] = VFile(path, [])
+            if path not in self.vfs:
+                raise PathRaise("FileNotFoundError", self.where(n))
+            return self.vfs[path]
+        if name in ("str", "repr"):
+            return self.render(args[0], n)
         if name == "all":
             return all(self.truth(x, n) for x in self.iterate(args[0], n))
         if name == "any":
@@ -1326,6 +1532,8 @@ class Interp:
             return SuperRef(cls.name, slf)
         if name == "print":
             return None
+        if name == "int" and isinstance(args[0], str):
+            return self.parse_number(args[0], n, integer=True)
         if name in LOSSY_BUILTINS:
             if name == "int" and isinstance(args[0], Poly) and args[0].const_value() is not None and int(args[0].const_value()) == args[0].const_value():
                 return args[0]
@@ -1588,6 +1796,11 @@ class Interp:
                 k = len(a.data)
                 return Arr([[a.data[i] if i == j else Poly() for j in range(k)] for i in range(k)], 2)
             return Arr([a.data[i][i] for i in range(min(a.shape))], 1)
+        if name == "array_equal":
+            a, b = self.to_arr(args[0], n), self.to_arr(args[1], n)
+            if a.shape != b.shape:
+                return False
+            return all(self.equal(x, y, n) for x, y in zip(a.flat(), b.flat()))
         if name == "float64":
             return self.scalar(args[0], n)
         if name == "isscalar":
@@ -1661,7 +1874,7 @@ def _dotp(r, c):
 
 OPNAME = {ast.Lt: "<", ast.LtE: "<=", ast.Gt: ">", ast.GtE: ">=", ast.Eq: "==", ast.NotEq: "!="}
 ARR_METHODS = {"tocsr", "tocsc", "tolil", "todense", "toarray", "tocoo", "any", "view", "copy", "dot", "transpose", "flatten", "ravel", "tolist", "astype", "reshape", "sum", "round"}
-BUILTIN_NAMES = {"set", "frozenset", "dict", "isinstance", "issubclass", "type", "len", "range", "zip", "enumerate", "reversed", "list", "tuple",
+BUILTIN_NAMES = {"open", "str", "repr", "set", "frozenset", "dict", "isinstance", "issubclass", "type", "len", "range", "zip", "enumerate", "reversed", "list", "tuple",
                  "all", "any", "sum", "max", "min", "super", "print", "round", "int", "abs", "NotImplementedError"}
 
 
